@@ -7,6 +7,7 @@ Verdict discipline (DESIGN.md 1.5):
 """
 import json
 import os
+import re
 import random
 import shutil
 import signal
@@ -98,6 +99,16 @@ class Check:
     def violation(self, key, text, files=None, payload=None):
         """key: discriminating class of the failing input (matched against known findings)."""
         full = "%s:%s" % (self.pid, key)
+        # A grid of at most 1e9 elements (the library's stated limit, checked in colvar_grid::setup) is a bounded
+        # allocation: the sanitizer's / libFuzzer's own allocation caps (2 GB) are lower than that limit, so their
+        # report for such a request is not a verdict on the library.  Recorded as an observation.
+        m_ = re.search(r"requested allocation size 0x([0-9a-fA-F]+)", text or "") or re.search(r"malloc\((\d+)\)", text or "")
+        if m_ and "colvar_grid" in key and "setup" in key:
+            size_ = int(m_.group(1), 16) if m_.group(0).startswith("requested") else int(m_.group(1))
+            if size_ <= 8 * 10 ** 9 + 4096:
+                self.bump("bounded_grid_allocations_reported_by_sanitizer_caps")
+                self.note_set("bounded_grid_allocation_sizes", size_)
+                return False
         for k in self.known:
             if k["status"] == "known" and match_key(k["key"], full):
                 if full not in self.known_hit:
